@@ -23,12 +23,13 @@ func same(a, b starlark.Value) bool {
 	if a.Type() != b.Type() {
 		return false
 	}
-	eq, err := starlark.Equal(a, b)
+	eq, err := starlark.EqualDepth(a, b, 100000)
 	return err == nil && eq
 }
 
 func equal(a, b starlark.Value) bool {
-	eq, err := starlark.Equal(a, b)
+	// the default comparison depth (10) is too shallow for function environments
+	eq, err := starlark.EqualDepth(a, b, 100000)
 	return err == nil && eq
 }
 
